@@ -65,10 +65,17 @@ def run_check(pid, root, tier='quick'):
 def run_variant(v):
     """v: dict(id, prop, file, old, new, expect, [rule], [count]) -> dict(result)"""
     files = [e[0] for e in (v.get('edits') or [])] + ([v['file']] if v.get('file') else [])
+    if v.get('patch'):
+        files += [l[6:].strip() for l in open(os.path.join(VERIF, v['patch'])) if l.startswith('+++ b/')]
     vers = tuple({f.split('/')[1] for f in files if f.startswith('hl7apy/v2_')})
     root = make_copy(vers)
     try:
-        edits = v.get('edits') or [(v['file'], v['old'], v['new'])]
+        if v.get('patch'):       # a stored diff (e.g. a benign refactoring) applied first, further edits on top of it
+            pr = subprocess.run(['patch', '-p1', '-s', '-d', root, '-i', os.path.join(VERIF, v['patch'])],
+                                stdout=subprocess.PIPE, stderr=subprocess.STDOUT, universal_newlines=True)
+            if pr.returncode:
+                return dict(id=v['id'], ok=False, why='STALE: patch %s does not apply: %s' % (v['patch'], pr.stdout[:80]))
+        edits = v.get('edits') if v.get('edits') is not None else ([(v['file'], v['old'], v['new'])] if v.get('file') else [])
         for (f, old, new) in edits:
             if not apply_edit(root, f, old, new, v.get('count', 1)):
                 return dict(id=v['id'], ok=False, why='STALE: text to edit not found in %s' % f)
